@@ -171,6 +171,11 @@ func n2judge(r *report.Report, cs string, res n2.Result, a *refamf.AMF, wantStat
 	if len(a.Viol) > 0 {
 		return "rejected:" + a.Viol[0].Key
 	}
+	if a.RejectIssued {
+		// a session establishment was rejected: stopping there (with whatever exit status) and going on without the
+		// session are both fine; every message sent after the reject has been judged above
+		return "after-session-reject:exit=" + fmt.Sprint(res.ExitCode)
+	}
 	if res.ExitCode != 0 || !strings.Contains(res.Stdout, ">> All tests finished") {
 		key := "emulator/did-not-complete"
 		for _, line := range strings.Split(res.Stdout, "\n") {
